@@ -417,3 +417,27 @@ Example C05_es_do_refinement_example :
   | _, _ => False
   end.
 Proof. vm_compute. repeat split; intro H; discriminate H. Qed.
+
+(* ---- the rest of the C07 step: apply_remove (end of refine_round: dead objects filtered out, re-indexing) and ExtendSplit.evaluate
+   (register / with_benefit on the new objects) do not change the recomputation; so the recomputation after a whole driver step is the
+   recomputation of the state after the selection loop, which keeps the levels (hence, version 0, the values) of all objects *)
+Theorem C05_es_recompute_apply_remove : forall (F : box -> lv -> Qc) (st1 : state) (k : nat),
+  es_recompute F (mkState (st_dim st1) (st_version st1) (st_lmin st1) (st_lmax st1) (st_auto st1) (st_single st1) (st_a st1) (st_b st1)
+                          (filter (fun x => negb (a_dead x)) (st_objs st1)) k (st_tree st1) (st_bmax st1) (st_base st1))
+  = es_recompute F st1.
+Proof. exact es_recompute_apply_remove. Qed.
+Theorem C05_es_recompute_evaluate : forall (F : box -> lv -> Qc) (st : state) bens,
+  es_recompute F (fst (evaluate st bens)) = es_recompute F st.
+Proof. exact es_recompute_evaluate. Qed.
+Theorem C05_es_recompute_step : forall (F : box -> lv -> Qc) (st : state) inp,
+  exists st1, KeepsLevels st st1 /\ es_recompute F (step st inp) = es_recompute F st1.
+Proof. exact es_recompute_step. Qed.
+Print Assumptions C05_es_recompute_apply_remove.
+Print Assumptions C05_es_recompute_evaluate.
+Print Assumptions C05_es_recompute_step.
+Example C05_es_recompute_step_example :
+  let st0 := fst (evaluate (init_state 2 0 0 1 2 1 false false [0%Qc; 0%Qc] [1%Qc; 1%Qc]) [((([0%Qc; 0%Qc]), [Q2Qc (1 # 2); Q2Qc (1 # 2)]), 8%Z)]) in
+  let F := fun (_ : box) (l : lv) => qc_of_Z (sumZ l + 1) in
+  let st1 := step st0 (mkStep [] []) in
+  st_lmax st1 = 3%Z /\ length (st_objs st1) = 4%nat /\ Qc_eqb (es_recompute F st1) 0%Qc = false.
+Proof. vm_compute. repeat split. Qed.
